@@ -3,7 +3,7 @@ from checks import searchfam
 
 
 def run(ctx):
-    searchfam.run_family(ctx, 1500, 100000)
+    searchfam.run_family(ctx, 1500, 60000)
     quick = ctx.tier == "quick"
     # limits inside the sub-searches of the k-shortest-paths algorithms: single-via queries under limits (its two
     # sub-searches are plain searches whose outcomes are recorded separately), and Yen's algorithm under a limit against
